@@ -2,7 +2,7 @@
 //!
 //! request : C08.compile \t <dx|vk|vkba|msl> \t <all|name=X|nopipeline> \t <layout 0|1> \t <defines> \t <input>
 //!   defines : `-` or `NAME=<hex of value>;...` (command-line defines)
-//!   input   : bytes:<seed> | toks:<seed> | rep:<seed> | gram:<seed> | gmut:<seed> | prog:<seed> | pmut:<seed>
+//!   input   : bytes:<seed> | toks:<seed> | rep:<seed> | gram:<seed> | gmut:<seed> | feat:<seed> | prog:<seed> | pmut:<seed>
 //!             | repo:<root>|<entry> | rmut:<root>|<entry>|<seed>          (repository inputs, includes from disk)
 //!             | hex:<bytes> | hexd:<root>|<entry>|<bytes>                  (literal entry file; minimised inputs)
 //! observe : ok:<pipelines>:<output bytes> | err:<first line of the diagnostic> | panic:<site> | died:<signal> | timeout
